@@ -56,6 +56,10 @@ CHECKS = {
    text="Assemble index pairing (values with rows_e/columns_e, resp. assembly_e and column 0; matrix shapes) is decided from the extracted source on a recording receiver, against the index contracts proved in C03. Element integration is the real form machinery: exact arithmetic for three basic forms, run-time contracts for a grammar of ten bilinear and two linear forms (scalar and vector fields, position-dependent coefficient, trace/transpose variants) per element type against the real built-in operators with the same quadrature; Assemble vs scatter-add; weak-form simulations vs the dedicated thermal/elastic simulations in static, parabolic and hyperbolic use.",
    note="Form grammar bounded to the listed forms; 2-element patches / star patches; floats with 1e-12 (1e-10 for solves). Built-in operators are the oracle (their contracts are C01/C02).",
    technique="contract-based verification: extracted index code against proved callee contracts + exact / run-time contracts of the real forms against the real operators"),
+ "C09": dict(level="other", design="DESIGN.md 3/C09",
+   text="The resultant lemma (partition of unity => nodal forces sum to the quadrature of the density) ties the clause to C06/C07 (z3). The point-load split is decided symbolically from the extracted source. Get_Elements_Nodes(exclusively=True) is enumerated exhaustively over every node subset of small meshes. Resultants, first moments, the 2-D thickness factor, stray nodes and the pressure resultant are run-time contracts of the real load API on gmsh-generated box meshes (boundary groups as generated, prism meshes with mixed TRI/QUAD boundary) against closed-form integrals, for constant, nodal-array and polynomial intensities.",
+   note="Box domains with straight faces; intensities up to the rule's degree; one thickness; seeded random coefficients. gmsh is external. Beam Hermitian line loads not covered.",
+   technique="contract-based verification: lemma over callee contracts + symbolic execution of extracted code + exhaustive bounded enumeration + run-time contracts on native runs"),
 }
 NOT_APPLICABLE = {
 }
